@@ -7,6 +7,7 @@ CONSTANTS
   AllowRelate = TRUE
   AllowQueryX = FALSE
   AllowSweep = TRUE
+  AllowDeclare = FALSE
   CopyModes = {}
   UnregisteredModes = {}
   Hist = TRUE
